@@ -62,6 +62,10 @@ type wsConn struct {
 	stop             <-chan struct{}
 	exiting          chan struct{}
 
+	// dialLk is held by the reconnect goroutine from its "are we still wanted?"
+	// check until the dial it then makes has returned
+	dialLk sync.Mutex
+
 	// incoming messages
 	incoming    chan io.Reader
 	incomingErr error
@@ -664,13 +668,16 @@ func (c *wsConn) tryReconnect(ctx context.Context) bool {
 		var conn *websocket.Conn
 		for conn == nil {
 			time.Sleep(c.reconnectBackoff.next(attempts))
+			c.dialLk.Lock()
 			if ctx.Err() != nil {
+				c.dialLk.Unlock()
 				return
 			}
 			var err error
 			if conn, err = c.connFactory(); err != nil {
 				log.Debugw("websocket connection retry failed", "error", err)
 			}
+			c.dialLk.Unlock()
 			select {
 			case <-ctx.Done():
 				if conn != nil {
@@ -764,8 +771,13 @@ func (c *wsConn) handleWsConn(ctx context.Context) {
 	defer close(c.exiting)
 	// cancelled before exiting is signalled (deferred calls run in reverse order),
 	// so that the reconnect goroutine cannot start a new dial once a closer that
-	// waits for exiting has returned
-	defer cancel()
+	// waits for exiting has returned; a dial that had already passed its check is
+	// waited for
+	defer func() {
+		cancel()
+		c.dialLk.Lock()
+		defer c.dialLk.Unlock()
+	}()
 
 	// ////
 
